@@ -271,7 +271,14 @@ def run(repo: Repo, rep: Report, tier: str) -> None:
     rep.rule("C14-R3", "in both mains every writer of `result` (echo to stdout / write_text) is dominated by the failure test that exits non-zero")
     for mf, cf in mains(repo):
         mcfg = CFG(mf.node)
-        fails = [s for s in mcfg.stmts() if isinstance(s, ast.If) and norm(s.test) == "not success"]
+        from .util import canon as _canon
+        cm_ = _canon(mf)
+
+        def _res(e: ast.AST, ix: int, _cf=cf, _cm=cm_) -> bool:
+            t = _cm.text(e)
+            return t.startswith(_cf.name + "(") and t.endswith(f")[{ix}]")
+
+        fails = [s for s in mcfg.stmts() if isinstance(s, ast.If) and isinstance(s.test, ast.UnaryOp) and isinstance(s.test.op, ast.Not) and _res(s.test.operand, 0)]
         ok_fail = bool(fails) and any(isinstance(x, ast.Call) and norm(x.func) == "sys.exit" and x.args and norm(x.args[0]) != "0" for s in fails[0].body for x in ast.walk(s))
         rep.check(ok_fail, "C14-R3", f"{mf.qual} exits non-zero when compilation fails", "`if not success:` ... sys.exit(1)" if ok_fail else "failure branch missing or exits 0", mf.loc(fails[0]) if fails else mf.loc())
         writers = []
@@ -279,13 +286,13 @@ def run(repo: Repo, rep: Report, tier: str) -> None:
             if isinstance(s, (ast.If, ast.For, ast.While, ast.Try, ast.With)):
                 continue
             for x in ast.walk(s):
-                if isinstance(x, ast.Call) and any(isinstance(a, ast.Name) and a.id == "result" for a in x.args) and call_name(x) in ("echo", "write_text", "print", "write"):
+                if isinstance(x, ast.Call) and call_name(x) in ("echo", "write_text", "print", "write") and any(cf.name + "(" in cm_.text(a) and ")[1]" in cm_.text(a) and "[2]" not in cm_.text(a) and not isinstance(a, ast.JoinedStr) for a in x.args):
                     if kwarg(x, "err") is None:
                         writers.append((s, x))
         rep.floor("C14-R3", f"writers of result in {mf.qual}", len(writers), 2)
         for s, x in writers:
             dom = bool(fails) and mcfg.dominates(fails[0], s) and s not in [n for b in fails[0].body for n in ast.walk(b)]
-            rep.check(dom, "C14-R3", f"{mf.qual}: {norm(x)[:50]} only after the success test", "dominated by `if not success: exit`" if dom else "result can be written on the failure path", mf.loc(x))
+            rep.check(dom, "C14-R3", f"{mf.qual}: {call_name(x)}(<blueprint text>) only after the success test", "dominated by `if not success: exit`" if dom else "result can be written on the failure path", mf.loc(x))
 
     # ---------------- R4 ---------------------------------------------------------------
     rep.rule("C14-R4", "for each AST class with a statement-list field the analyzer's visit method visits the list on every path "
